@@ -44,8 +44,13 @@ def build_harness(src, variant='plain', extra=()):
 
 
 def scratch(name):
+    """per-run scratch directory under .cache/run, removed when the check exits (VERIF_KEEP=1 keeps it)"""
+    import atexit, shutil
     d = os.path.join(CACHE, 'run', '%s-%d' % (name, os.getpid()))
+    shutil.rmtree(d, ignore_errors=True)
     os.makedirs(d, exist_ok=True)
+    if not os.environ.get('VERIF_KEEP'):
+        atexit.register(shutil.rmtree, d, True)
     return d
 
 
